@@ -187,8 +187,8 @@ pub trait Subject {
     fn de_ref(&self, _f: Fmt, _p: Pos, _bytes: &[u8]) -> Option<Result<Vec<Value>, String>> {
         None
     }
-    /// serialize the inner value in a container position (document construction)
-    fn ser_inner(&self, _f: Fmt, _p: Pos, _raw: &Value) -> Option<Result<Vec<u8>, String>> {
+    /// documents carrying the raw inner value in a container position (inner and reference-newtype encodings)
+    fn docs_for(&self, _f: Fmt, _p: Pos, _raw: &Value) -> Option<Vec<Vec<u8>>> {
         None
     }
     fn ser(&self, _f: Fmt, _raw: &Value) -> Option<SerObs> {
